@@ -22,6 +22,9 @@ EXPLANATION = (
     "over range(1, num_servers + 1) with num_servers = len of the same server map, augmenting_path_for searches "
     "from vertex 0 to vertex len(graph) - 1, residual_network reverses exactly the saturated edges; (4) BFS "
     "discipline: a vertex is enqueued only when WHITE, after it was coloured and given its predecessor. "
+    "Deliberately not demanded (no effect on the value): the order of the edges inside the augmenting path, the residual "
+    "capacity entries of the direction that is not a residual edge (cf = -1 / 0, never read), bfs distance and BLACK "
+    "bookkeeping, how the per-vertex tables are spelled ([x for ..] or [x] * n). "
     "Undecided: that the flow found is maximum (termination and optimality of Edmonds-Karp), dict/set iteration order "
     "(the max-flow value is unique, so the result does not depend on it once 1-4 hold).")
 TECHNIQUE = ("static analysis: CFG x staleness monitor for the derived residual network (R2), normal-form agreement of "
@@ -56,6 +59,30 @@ def _distinct_rows(e):
         return fresh_mutable(e.elt) or (isinstance(e.elt, ast.BinOp) and isinstance(e.elt.op, ast.Mult)
                                         and any(isinstance(s, ast.List) for s in (e.elt.left, e.elt.right)))
     return False
+
+
+def _uniform_table(e, graph):
+    """Element expression of a table with one equal entry per vertex of `graph`:
+    [x for _ in range(len(graph))] or [x] * len(graph) (immutable entries, so shared entries are harmless)."""
+    want = "len(%s)" % graph
+    if isinstance(e, ast.ListComp) and len(e.generators) == 1 and not e.generators[0].ifs \
+            and norm_plain(e.generators[0].iter) == "range(%s)" % want:
+        return e.elt
+    if isinstance(e, ast.BinOp) and isinstance(e.op, ast.Mult):
+        for (a, b) in ((e.left, e.right), (e.right, e.left)):
+            if isinstance(a, ast.List) and len(a.elts) == 1 and norm_plain(b) == want:
+                return a.elts[0]
+    return None
+
+
+def _subscript_stored(fn):
+    """Local names that are the base of a subscript store (tables mutated in place: never replace them by their
+    initial value)."""
+    out = set()
+    for x in func_own_nodes(fn):
+        if isinstance(x, ast.Subscript) and isinstance(x.ctx, ast.Store) and isinstance(x.value, ast.Name):
+            out.add(x.value.id)
+    return out
 
 
 def _ek_anchor(fn):
@@ -568,7 +595,8 @@ def run(ctx: Context):
             raise AnchorVanished("augmenting_path_for: path return")
         bt = "bfs(%s, 0)" % AG
         for (t, w) in find_path_avoiding(acfg, lambda x: x is prets[0],
-                                         gate_edge=fact_gate(anorm, lambda op, l, rr: op == "truth" and l == "%s[%s]" % (bt, sink))):
+                                         gate_edge=fact_gate(anorm, lambda op, l, rr: (op == "truth" and l == "%s[%s]" % (bt, sink))
+                                                             or (op in ("is not", "!=") and {l, rr} == {"%s[%s]" % (bt, sink), "None"}))):
             r.violation(ap, ap.loc(t.ast), "a path is returned without the sink (vertex len(%s) - 1) having been reached" % AG, w)
         pname = prets[0].ast.value.id
         ins = [c for c in calls_in_func(ap, "insert") if call_name(c) == pname + ".insert"] + \
@@ -663,7 +691,7 @@ def run(ctx: Context):
         bf = idx.func(HU + ":bfs")
         BG, BS = first_positional_params(bf)[:2]
         bcfg = bf.cfg()
-        bnorm = FlowNorm(bf)
+        bnorm = FlowNorm(bf, keep=_subscript_stored(bf))
         pred = returned_name(bf)
         qs = [n for n in bcfg.stmt_nodes() if n.kind == "stmt" and isinstance(n.ast, ast.Assign)
               and isinstance(n.ast.value, ast.List) and [norm_plain(e) for e in n.ast.value.elts] == [BS]]
@@ -703,9 +731,10 @@ def run(ctx: Context):
             r.require(white == "0" or white == "WHITE", bf, bf.loc(c), "the colour compared with is %s, not WHITE" % white)
             init = Flow(bf).unique_def(qs[0], colour)[1]
             wname = None
-            okw = isinstance(init, ast.ListComp) and norm_plain(init.generators[0].iter) == "range(len(%s))" % BG
+            elt0 = _uniform_table(init, BG) if init is not None else None
+            okw = elt0 is not None
             if okw:
-                wname = bnorm.norm(qs[0], init.elt)
+                wname = bnorm.norm(qs[0], elt0)
                 okw = wname == white
             r.require(okw, bf, bf.loc(init) if init is not None else bf.loc(),
                       "every vertex of %s must start WHITE (%s) in %s" % (BG, white, colour))
@@ -733,8 +762,8 @@ def run(ctx: Context):
                     r.violation(bf, bf.loc(t.ast), "vertex %s is enqueued without having been %s" % (v, what), w)
         # predecessor table
         pinit = Flow(bf).unique_def(qs[0], pred)[1]
-        r.require(isinstance(pinit, ast.ListComp) and isinstance(pinit.elt, ast.Constant) and pinit.elt.value is None
-                  and norm_plain(pinit.generators[0].iter) == "range(len(%s))" % BG, bf, bf.loc(),
+        pelt = _uniform_table(pinit, BG) if pinit is not None else None
+        r.require(isinstance(pelt, ast.Constant) and pelt.value is None, bf, bf.loc(),
                   "the predecessor table must start as None for every vertex (augmenting_path_for tests the sink's entry)")
 
 
